@@ -8,16 +8,17 @@
      (F1) forall cls w msig, In w wrappers -> method_sig tables cls (target_name w) = Some msig -> wrapper_ok msig w = true
           — false: sparse.clip converts its receiver to COO and silently ignores `out`  (wrappers_faithful_refuted);
      (F2) forall cls (op, ss) in op_classes, s1 s2 in ss, resolve cls s1 = resolve cls s2
-          — false: DOK inherits the abstract stubs isnan/isinf (return None) while np.isnan(dok) computes
-            (spellings_stub_refuted); sparse.clip / np.clip return COO for GCXS/DOK receivers while x.clip keeps the
+          — false: sparse.clip / np.clip return COO for GCXS/DOK receivers while x.clip keeps the
             format (spellings_coerced_refuted); an operation a class lacks fails with AttributeError in one spelling
-            and TypeError in another (unsupported_exception_class_refuted); COO/GCXS isnan, isinf, mT have a second,
+            and TypeError in another (unsupported_exception_class_refuted); COO/GCXS isnan, isinf, mT
+            (and, since the repair ea90286 of the DOK stubs, DOK isnan/isinf) have a second,
             independent algorithm beside the generic path — agreement is then checked by correspondence only
             (spellings_two_algorithms_refuted);
      (F3) every call shape that binds to the method binds to the NEP-18 spelling
           — false: np.sum(x, 0), np.var(x, ddof=1) (np_call_shapes_refuted, np_keyword_refuted). *)
 From Coq Require Import ZArith List String Bool.
 From Verif Require Import Dispatch S_dispatch DispatchP.
+From Verif Require Import Py Shape COO COOP GCXS Convert ConvertG ShapeOps NpShapeOps ShapeOpsG Elemwise ElemwiseP ElemwiseGenP ReduceExt DispatchDenP.
 Import ListNotations.
 Open Scope string_scope.
 
@@ -67,7 +68,7 @@ Theorem spellings_agree_partial :
   forall cls op ss s1 s2,
     In cls classes -> In (op, ss) op_classes ->
     supported tables cls ss = true -> clause_single_algorithm cls op = true ->
-    clause_no_stub cls op = true -> clause_not_coerced cls op = true ->
+    clause_not_coerced cls op = true ->
     In s1 ss -> In s2 ss ->
     resolve tables false FUEL cls s1 = resolve tables false FUEL cls s2.
 Proof. exact spellings_agree_partial_proof. Qed.
@@ -80,11 +81,12 @@ Theorem spellings_two_algorithms_refuted :
 Proof. exact spellings_two_algorithms_refuted_proof. Qed.
 Print Assumptions spellings_two_algorithms_refuted.
 
-Theorem spellings_stub_refuted :
-  exists op ss s1 s2, In (op, ss) op_classes /\ In s1 ss /\ In s2 ss /\
-    resolve tables false FUEL "DOK" s1 = LfStub "isnan" /\ resolve tables false FUEL "DOK" s2 = LfElemwise "isnan".
-Proof. exact spellings_stub_refuted_proof. Qed.
-Print Assumptions spellings_stub_refuted.
+(* (the former spellings_stub_refuted — DOK.isnan/isinf returned None — is repaired in /repo; instead:) *)
+Theorem no_spelling_reaches_a_stub :
+  forall cls op ss s, In cls classes -> In (op, ss) op_classes -> In s ss ->
+    is_stub_leaf (resolve tables false FUEL cls s) = false.
+Proof. exact no_spelling_reaches_a_stub_proof. Qed.
+Print Assumptions no_spelling_reaches_a_stub.
 
 Theorem spellings_coerced_refuted :
   exists op ss s1 s2, In (op, ss) op_classes /\ In s1 ss /\ In s2 ss /\
@@ -147,3 +149,29 @@ Theorem np_keyword_refuted :
     bind_shape msig 0 kws = true /\ bind_shape (w_sig w) 1 kws = false.
 Proof. exact np_keyword_refuted_proof. Qed.
 Print Assumptions np_keyword_refuted.
+
+(* ------------------------------------------------------------------ EXTENSION: the two-algorithm operations
+   (clause two_algorithm_ops) agree on the dense meaning.  These statements are about the array models of C01
+   (Model/Elemwise.v), C03 (coo_map), C05 (conversions) and C08 (shape operations), imported read-only. *)
+
+(* x.mT / x.T / x.transpose(axes) on GCXS vs sparse.matrix_transpose / permute_dims through the COO conversion *)
+Theorem transpose_paths_agree_den :
+  forall (V : Type) (veqb : V -> V -> bool) (add : V -> V -> V) (c : coo V) (ca : list Z)
+         (axes : option (list Z)) (r1 : gcxs V) (r2 : coo V),
+    canonical V c -> shape_ok (c_shape c) -> axes_ok (c_shape c) ca ->
+    gcxs_transpose (gcxs_from_coo c ca) axes = Ok r1 ->
+    coo_transpose (gcxs_tocoo veqb add (gcxs_from_coo c ca)) axes = Ok r2 ->
+    g_shape r1 = c_shape r2 /\ g_fill r1 = c_fill r2 /\
+    forall ix, in_range (c_shape r2) ix -> gden r1 ix = den r2 ix.
+Proof. exact transpose_paths_agree_den_proof. Qed.
+Print Assumptions transpose_paths_agree_den.
+
+(* COO.isnan() / COO.isinf() (own body = coo_map) vs np.isnan(x) = elemwise(np.isnan, x): the same array *)
+Theorem unary_paths_agree :
+  forall (V : Type) (veqb : V -> V -> bool) (vzero : V) (srt : list Z -> list nat) (g : V -> V) (c : coo V) (r : coo V),
+    is_argsort srt -> (forall a b, veqb a b = true <-> a = b) ->
+    canonical V c -> shape_ok (c_shape c) -> c_shape c <> [] ->
+    elemwise V veqb vzero (fun l => g (hd vzero l)) srt [OSp c] = OutSparse r ->
+    r = coo_map veqb g c.
+Proof. exact unary_paths_agree_proof. Qed.
+Print Assumptions unary_paths_agree.
